@@ -819,9 +819,19 @@ func (c *EvalCtx) evalChanFn(e *ECall) Term {
 	}
 	switch e.Fn {
 	case "chanSentN":
-		return mkTerm(sel(c.heapVar("CH_sentn", arrSort(sInt, sInt)), ch.S), sInt, nil)
+		t := mkTerm(sel(c.heapVar("CH_sentn", arrSort(sInt, sInt)), ch.S), sInt, nil)
+		if c.facts != nil && !strings.Contains(ch.S, "q!") {
+			*c.facts = append(*c.facts, "(<= 0 "+t.S+")")
+		}
+		return t
 	case "chanRecvN":
-		return mkTerm(sel(c.heapVar("CH_recvn", arrSort(sInt, sInt)), ch.S), sInt, nil)
+		t := mkTerm(sel(c.heapVar("CH_recvn", arrSort(sInt, sInt)), ch.S), sInt, nil)
+		if c.facts != nil && !strings.Contains(ch.S, "q!") {
+			// by definition of the prophecy sequence: 0 <= received so far <= total ever received
+			v.decls.add("fun:CH_total", "(declare-fun CH_total (Int) Int)")
+			*c.facts = append(*c.facts, "(and (<= 0 "+t.S+") (<= "+t.S+" (CH_total "+ch.S+")))")
+		}
+		return t
 	case "chanClosed":
 		return mkTerm(sel(c.heapVar("CH_closed", arrSort(sInt, sBool)), ch.S), sBool, nil)
 	case "chanTotal":
